@@ -59,6 +59,7 @@ type engine struct {
 	Race      bool // build with the race detector, turn its reports into findings (free-running engines)
 	MemMB     int  // ulimit -v for the worker in MiB (0 = default 12288)
 	TimeoutS  int
+	ThoroughTimeoutS int // worker timeout of the thorough tier when larger than the default hour
 }
 
 type propSpec struct {
@@ -283,6 +284,9 @@ func runWorker(bin string, prop, tier string, e engine, shard, nshards int, outD
 		if tier == "quick" {
 			to = 1500
 		}
+	}
+	if tier == "thorough" && e.ThoroughTimeoutS > to {
+		to = e.ThoroughTimeoutS
 	}
 	sh := fmt.Sprintf("ulimit -v %d; exec timeout -k 10 %d %q \"$@\"", mem*1024, to, bin)
 	if e.Race {
